@@ -270,7 +270,28 @@ func (w *World) Reget(c *Cont) error {
 	default:
 		return violf("lookup of child c%d returned %T", c.Serial, v)
 	}
+	w.dropDescendantHandles(c)
 	return nil
+}
+
+// dropDescendantHandles enforces the one-handle discipline transitively: a handle to a nested
+// container is tied (through its parent callback and the parent handle's private table of tracked
+// children) to the parent handle it was obtained through.  When the harness replaces c's handle,
+// handles of c's descendants obtained through the old one are abandoned and re-obtained lazily
+// through the new one.
+func (w *World) dropDescendantHandles(c *Cont) {
+	vals := c.Elems
+	if c.IsMap {
+		vals = c.Vals
+	}
+	for _, v := range vals {
+		if u, _ := Unwrap(v); u != nil {
+			if ch, ok := u.(*Cont); ok {
+				ch.Arr, ch.Map = nil, nil
+				w.dropDescendantHandles(ch)
+			}
+		}
+	}
 }
 
 // ---------------------------------------------------------------------------------------------
@@ -815,6 +836,7 @@ func (w *World) apply(o Op) error {
 				case *atree.OrderedMap:
 					ch.Map = h
 				}
+				w.dropDescendantHandles(ch)
 			}
 		}
 		return w.after(c)
@@ -1000,6 +1022,7 @@ func (w *World) apply(o Op) error {
 				case *atree.OrderedMap:
 					ch.Map = h
 				}
+				w.dropDescendantHandles(ch)
 			}
 		}
 		return w.after(c)
@@ -1045,6 +1068,28 @@ func (w *World) apply(o Op) error {
 			return fmt.Errorf("harness: reget of c%d which is not attached", o.C)
 		}
 		return w.Reget(c)
+
+	case "iterget":
+		c := w.Conts[o.C]
+		if c.Dead || c.Parent == nil {
+			return fmt.Errorf("harness: iterget of c%d which is not attached", o.C)
+		}
+		return w.IterGet(c)
+
+	case "creopen":
+		if err := w.Commit(1, false); err != nil {
+			return err
+		}
+		w.Reopen()
+		return nil
+
+	case "cdrop":
+		if err := w.Commit(1, false); err != nil {
+			return err
+		}
+		w.St.DropCache()
+		w.dropChildHandles()
+		return nil
 
 	case "dispose":
 		c, err := w.cont(o.C)
